@@ -13,9 +13,10 @@ Requests:
                         1 = never terminates within the state-space bound), then `| K` Knuth's
                         reported representatives `l r` in order, then `| n` the number of pairs whose
                         first matching instruction is a redirect word (never executed)
-* `run P | W | I`    → `m g s | M-items | S-glyphs` : `m` = I equals M's items, `g` = glyphs of I
-                        equal `interp`, `s` = originals of I spell W; (`g = 2`: S out of fuel)
-* `runs P | W | I | W | I …` → one `mgs` triple (as a 3-digit word) per word
+* `run P | W | I`    → `m g s t | M-items | S-glyphs` : `m` = I equals M's items, `g` = glyphs of I
+                        equal `interp`, `s` = originals of I spell W, `t` = node types of I (character /
+                        ligature) equal `interpT`; (`g`/`t` = 2: S out of fuel)
+* `runs P | W | I | W | I …` → one `mgst` verdict (as a 4-digit word) per word
 * `runn`, `runsn`      → the same for `RunOptions { disable_left_boundary: true }` (`runNoLB`, `seqNoLB`)
 * `runx nolb ov …`, `runsx nolb ov …` → the same for any `RunOptions` (`runOpt`; S = `interp` on
                         `withRb p (effRb p ov)`); `ov = -1` = no override
@@ -254,11 +255,15 @@ def verdict (lb : Bool) (ov : Option Nat) (p : Program) (c : Cache) (w : List Na
   let rb := effRb p ov
   let p' := withRb p rb
   let m := if lb then runCompiled c.tbl rb w else runNoLBc c p' w
-  let s := interp p' (runFuel c.k c.acyclic w) (if lb then seqOf p' w else seqNoLB p' w)
+  -- one run of the typed machine; the untyped glyph sequence is its erasure (`typed_refines`)
+  let seq := if lb then seqOf p' w else seqNoLB p' w
+  let ts := interpT p' (runFuel c.k c.acyclic w) (seq.map (fun e => (e, false)))
+  let s := ts.map (List.map TGlyph.erase)
   let mOk := b2i (m == items)
   let gOk : Int := match s with | none => 2 | some g => b2i (g == glyphs items)
   let sOk := b2i (originals items == w)
-  (mOk * 100 + gOk * 10 + sOk, m, s)
+  let tOk : Int := match ts with | none => 2 | some g => b2i (g == items.map Item.tglyph)
+  (mOk * 1000 + gOk * 100 + sOk * 10 + tOk, m, s)
 
 def decWI (a b : List String) : Option (List Nat × List Item) := do
   let w ← ints? a >>= takeList
@@ -287,11 +292,11 @@ def handleRun (lb : Bool) (ov : Option Nat) (ws : List String) : String :=
       match ints? pw >>= decProg, decWI a b with
       | some (p, []), some (w, items) =>
         let v := verdict lb ov p (mkCache p) w items
-        let m := v.1 / 100; let g := v.1 / 10 % 10; let s := v.1 % 10
+        let m := v.1 / 1000; let g := v.1 / 100 % 10; let s := v.1 / 10 % 10; let t := v.1 % 10
         let sg := match v.2.2 with
           | none => "none"
           | some g => showInts (g.map encGlyph).flatten
-        s!"{m} {g} {s} | {showInts (encItems v.2.1)} | {sg}"
+        s!"{m} {g} {s} {t} | {showInts (encItems v.2.1)} | {sg}"
       | _, _ => "bad-request"
     | _ => "bad-request"
 
